@@ -395,7 +395,8 @@ def _work_specs(jobs):
                 total[k] = total.get(k, 0) + v
             if len(samples) < 1:
                 samples.append({'cells': [[sh['title'], c[0], c[1], c[2], c[3] if isinstance(c[3], str) else '<value>']
-                                          for sh in spec['sheets'] for c in sh['cells']][:6], 'outcomes': outs})
+                                          for sh in spec['sheets'] for c in sh['cells'] if c[0] != 25][:6],
+                                'modes': modes, 'outcomes': outs})
     return fails, total, samples
 
 
@@ -442,6 +443,8 @@ TITLES = ['Data', 'Sh 2', "It's", 'Лист3', 'A1', 'S', 'S1', 'eval(1)', 'X' *
 SAFE_TITLES = ['Data', 'Sh 2', 'Sheet3', 'S', 'S1', 'X' * 31]
 B_COLS = [1, 2, 24, 26, 27, 28, 52, 53, 256, 257, 701, 702, 703, 704, 16383, 16384]
 B_ROWS = [1, 2, 9, 10, 11, 99, 100, 101, 102, 999, 1000, 1001, 1002, 65536, 65537, 1048575, 1048576]
+N_MULTI = {'quick': 120, 'thorough': 2000}
+N_INNOCENT = {'quick': 60, 'thorough': 1500}
 DATA = [[25, 50, 'value', 1], [25, 51, 'value', 2], [25, 52, 'value', 3]]
 
 
@@ -529,9 +532,13 @@ def placement_jobs(tier, seed):
                     # the same innocent text also exactly where the other sheet has the suspicious one
                     put(sheets, used, 1 - si, col, row, 'const', 'SUM(A1)')
                     spec = {'sheets': sheets}
-                    jobs.append((spec, modes_for(rng, spec, full=(k % 4 == 0)), False))
+                    if k % 6 == 0:
+                        modes = modes_for(rng, spec, full=True)
+                    else:
+                        modes = [{'enabled': True}] + ([{'enabled': False}] if k % 3 == 0 else [])
+                    jobs.append((spec, modes, False))
     # (b) several suspicious and innocent cells, boundary rows / columns, 1..6 sheets, tricky titles, hidden sheets
-    n_multi = 260 if tier == 'quick' else 6000
+    n_multi = N_MULTI[tier]
     for w in range(n_multi):
         ns = rng.randint(1, 6)
         sheets = make_sheets(rng, ns, TITLES)
@@ -541,7 +548,7 @@ def placement_jobs(tier, seed):
         for _ in range(nS):
             kind, text = suspicious_cell(rng)
             if far:
-                col, row = rng.choice(B_COLS), rng.choice(B_ROWS)
+                col, row = rng.choice(B_COLS), rng.choice(B_ROWS if rng.random() < 0.25 else B_ROWS[:13])
             else:
                 col, row = rng.randint(1, 8), rng.randint(1, 8)
             put(sheets, used, rng.randrange(ns), col, row, kind, text)
@@ -590,7 +597,7 @@ def innocent_jobs(tier, seed):
         sheets = make_sheets(rng, 2, SAFE_TITLES, hidden=False)
         put(sheets, set(), 1, 2, 3, kind, payload)
         jobs.append(({'sheets': sheets}, [{'enabled': True}, {'enabled': False}, {'enabled': True, 'via': 'write'}], True))
-    n = 120 if tier == 'quick' else 2500
+    n = N_INNOCENT[tier]
     for w in range(n):
         ns = rng.randint(1, 5)
         tricky = rng.random() < 0.5
@@ -849,11 +856,11 @@ def _seq_chunk(seqs):
 def sequence_sweep(tier, seed):
     t0 = time.time()
     rng = random.Random(seed * 1000003 + 77)
-    L = 6 if tier == 'quick' else 8
+    L = 5 if tier == 'quick' else 7
     seqs = [''.join(p) + 'T' for p in itertools.product('EDTBG', repeat=L - 1)]
     # sequences that never select a workbook decide nothing
     seqs = [s for s in seqs if 'B' in s or 'G' in s]
-    n_rand = 1500 if tier == 'quick' else 30000
+    n_rand = 900 if tier == 'quick' else 20000
     extra = ['BDTEET', 'BDTETET', 'BDTEEW', 'DBTEET', 'BDTXEET', 'GTBT', 'GTDBTET', 'BTDTET', 'CTBTGT', 'DCTBTEET', 'BDWEEW', 'XBDTEET',
              'BDTGTBEET', 'DEBT', 'BDTEDET', 'BDTDEET', 'DBTECT', 'DBTEDTECT']
     for _ in range(n_rand):
@@ -915,7 +922,7 @@ def workbook_checks(tier, seed):
     pf = fails['P']
     c('C19.monitor.rejected_and_listed',
       f'{len(pj)} workbooks: every single placement of a suspicious constant / formula on a 6 x 6 x 2 grid (144), '
-      f'{260 if tier == "quick" else 6000} seeded workbooks with 1..6 sheets (titles {TITLES[:8]}..., hidden sheets), 1..7 suspicious cells from '
+      f'{N_MULTI[tier]} seeded workbooks with 1..6 sheets (titles {TITLES[:8]}..., hidden sheets), 1..7 suspicious cells from '
       f'{len(S_CONST) + len(S_FORM)} templates (eval(1), os.system(..), Exec(x), subprocess.Popen(x), f(), nested, several per cell, inside a '
       f'string literal, call behind position 50 / 300) in the grid or on columns {B_COLS} x rows {B_ROWS}, same text at the same address on two sheets; '
       f'every boundary column and row at least once; whole-file, entry-cell and write_translation runs',
@@ -935,7 +942,7 @@ def workbook_checks(tier, seed):
       [f for f in pf if f['check'] == 'clean'], g(P, 'clean'), samples['P'][2:])
     c('C19.monitor.innocent_workbook_accepted',
       f'{len(ij)} workbooks of innocent cells only: each of the {len(I_CONST) + len(I_FORM) + len(I_VALUES)} innocent templates alone and '
-      f'{120 if tier == "quick" else 2500} seeded mixtures of 1..12 cells on 1..5 sheets, near and far cells; whole-file, entry-cell and '
+      f'{N_INNOCENT[tier]} seeded mixtures of 1..12 cells on 1..5 sheets, near and far cells; whole-file, entry-cell and '
       'write_translation runs with the check on',
       'one evaluation = one run: no exception at all and a translation text is returned',
       [f for f in fails['I'] if f['check'] != 'disabled'], g(I, 'accepted'), samples['I'])
